@@ -13,7 +13,7 @@ import (
 
 func init() {
 	register("C15",
-		"RDC-1: for every Read([]byte)(int,error) method of mailbox (NoiseGrpcConn, NoiseConn, connKit) every returned count is the constant 0, the result of copy(b, ...), or the count of a delegated Read(b) on a receiver-owned buffer - hence n <= len(b) on every path. RDC-2: the source of such a copy is a prefix of a receiver field F, F is advanced by exactly the copy count on every path to the return, F is only refilled when empty and only with a whole received message, and nobody else writes F; a received message otherwise flows whole into a receiver-owned bytes.Buffer. RDC-3: Write methods return 0 with an error, the count of Flush, or len(b) after the whole b was handed to the layer below; chunked writes are contiguous and accumulate the flushed count before testing the error. TRUNC: every narrowing integer conversion in mailbox is dominated by a bound that makes it exact (no silent truncation of lengths). Not decided: the equality of concatenations as a property of histories (follows from RDC-1/2/3 + C08 + C16 only by an inductive argument the checker does not make).",
+		"RDC-1: for every Read([]byte)(int,error) method of mailbox (NoiseGrpcConn, NoiseConn, connKit) every returned count is the constant 0, the result of copy(b, ...), or the count of a delegated Read(b) on a receiver-owned buffer - hence n <= len(b) on every path. RDC-2: the source of such a copy is a prefix of a receiver field F, F is advanced by exactly the copy count on every path to the return, F is only refilled when empty and only with a whole received message, and nobody else writes F; a received message otherwise flows whole into a receiver-owned bytes.Buffer. RDC-3: Write methods return 0 with an error, the count of Flush, or len(b) after the whole b was handed to the layer below; chunked writes are contiguous and accumulate the flushed count before testing the error. RDC-4: a Read that serves the caller through bytes.Buffer.Read (which reports io.EOF on an empty buffer) does so only under Len() != 0, so an empty record or empty message of the peer cannot end the stream. TRUNC: every narrowing integer conversion in mailbox is dominated by a bound that makes it exact (no silent truncation of lengths). Not decided: the equality of concatenations as a property of histories (follows from RDC-1/2/3 + C08 + C16 only by an inductive argument the checker does not make).",
 		[]string{"bytes.Buffer.Read/Write implement the io.Reader/io.Writer contract; copy returns min(len(dst), len(src))"},
 		runC15)
 }
@@ -105,6 +105,7 @@ func runC15(c *Checker) {
 		checkWriteMethod(c, rg, fn)
 	}
 	c.floor("RDC-3", 6)
+	c.floor("RDC-4", 2)
 	checkNarrowing(c, rg, "TRUNC", targetMbox)
 	c.floor("TRUNC", 3)
 }
@@ -198,6 +199,51 @@ func checkReadMethod(c *Checker, rg *Ranger, fn *ssa.Function) {
 			F = f
 		}
 		key := fmt.Sprintf("%s|copy-source", name)
+		if !okSrc && len(srcs) == 1 {
+			// direct hand-out of a whole received message: fine when the caller's buffer is proved
+			// to hold any record (>= 65535 bytes) and no earlier bytes are still buffered
+			if ex, ok := srcs[0].(*ssa.Extract); ok && ex.Index == 0 {
+				if _, isCall := ex.Tuple.(*ssa.Call); isCall {
+					facts := factsAt(cp.Block())
+					big := rg.minLen(b, facts) >= 65535
+					drained := true
+					allInstrs(fn, func(in ssa.Instruction) {
+						call, ok := in.(*ssa.Call)
+						if !ok {
+							return
+						}
+						f, ok := bufferCallOnRecvField(call, recv, "Read")
+						if !ok {
+							return
+						}
+						empty := false
+						for _, ft := range facts {
+							bo, ok := ft.Cond.(*ssa.BinOp)
+							if !ok {
+								continue
+							}
+							lc, ok := bo.X.(*ssa.Call)
+							if !ok {
+								continue
+							}
+							if lf, ok := bufferCallOnRecvField(lc, recv, "Len"); !ok || lf != f {
+								continue
+							}
+							if k, isK := intConst(bo.Y); isK && k == 0 && ((bo.Op == token.EQL && ft.Val) || (bo.Op == token.NEQ && !ft.Val) || (bo.Op == token.GTR && !ft.Val)) {
+								empty = true
+							}
+						}
+						if !empty {
+							drained = false
+						}
+					})
+					if c.decide(big && drained, "RDC-2", key+"|direct", instrPos(cp), "a whole record is copied straight into a buffer proved >= 65535 bytes while nothing is buffered",
+						fmt.Sprintf("a received record is copied straight into the caller's buffer (buffer proved large enough for any record: %v; earlier unread bytes known to be absent: %v): bytes are dropped or overtaken", big, drained)) {
+					}
+					continue
+				}
+			}
+		}
 		if !okSrc {
 			c.fail("RDC-2", key, instrPos(cp), "the copied source "+w.canonFB(cp.Call.Args[1])+" is not a prefix of one receiver field: bytes that do not fit the buffer cannot be retained")
 			continue
@@ -299,6 +345,54 @@ func checkReadMethod(c *Checker, rg *Ranger, fn *ssa.Function) {
 		}
 		if f, ok := bufferCallOnRecvField(call, recv, "Read"); ok {
 			c.ok("RDC-2", fmt.Sprintf("%s|buffer-serve|%s", name, f.Name()), instrPos(call), "served from the receiver-owned buffer "+f.Name())
+			// RDC-4: bytes.Buffer.Read reports io.EOF on an empty buffer. The caller may only be
+			// served where the buffer is known to hold data (an empty record must not end the stream).
+			var lenCall *ssa.Call
+			for _, ft := range factsAt(call.Block()) {
+				bo, ok := ft.Cond.(*ssa.BinOp)
+				if !ok {
+					continue
+				}
+				lc, ok := bo.X.(*ssa.Call)
+				if !ok {
+					continue
+				}
+				if lf, ok := bufferCallOnRecvField(lc, recv, "Len"); !ok || lf != f {
+					continue
+				}
+				k, isK := intConst(bo.Y)
+				if !isK || k != 0 {
+					continue
+				}
+				if (bo.Op == token.EQL && !ft.Val) || (bo.Op == token.NEQ && ft.Val) || (bo.Op == token.GTR && ft.Val) {
+					lenCall = lc
+				}
+			}
+			okNE := lenCall != nil
+			why := "the buffer may be empty here (e.g. after an empty record was received): bytes.Buffer.Read then returns io.EOF and the stream ends for the caller although more data follows"
+			if okNE {
+				// nothing drains the buffer between that test and the serve
+				allInstrs(fn, func(in2 ssa.Instruction) {
+					m, ok := in2.(*ssa.Call)
+					if !ok || m == call || m == lenCall {
+						return
+					}
+					sc := m.Common().StaticCallee()
+					if sc == nil || sc.Signature.Recv() == nil || len(m.Common().Args) == 0 {
+						return
+					}
+					fa, ok := m.Common().Args[0].(*ssa.FieldAddr)
+					if !ok || fa.X != recv || structFieldOf(fa) != f || sc.Name() == "Len" || sc.Name() == "Write" {
+						return
+					}
+					if pathExists(lenCall, m, nil) && pathExists(m, call, nil) {
+						okNE = false
+						why = "the buffer is drained by " + sc.Name() + " between the non-empty test and the serve"
+					}
+				})
+			}
+			c.decide(okNE, "RDC-4", fmt.Sprintf("%s|serve only from a non-empty buffer|%s", name, f.Name()), instrPos(call),
+				"the serve is dominated by "+f.Name()+".Len() != 0", why)
 		}
 	})
 }
